@@ -22,7 +22,7 @@ func init() {
 			"R2: every PayInvoiceViaChannel call is cut off by fee <= 3 x Wallet.GetFlatOpeningTXFee() (fee = DecodePayreq amount / 1000 of the very payreq that is paid, directly or through the OpeningTxFee field written from it before the test) and by SpendableMsat >= amount*1000 + invoice msat (64-bit); the unguarded side returns only Event_ActionFailed. " +
 			"R3: GetOpeningTXAmount returns request amount + swap-in premium for a swap-in and the bare amount for a swap-out, GetClaimAmount the converse (per return: value and dominating request test); every CreateOpeningTransaction call passes OpeningParams.Amount = GetOpeningTXAmount(); every claim-type GetPayreq call asks for GetClaimAmount()*1000; in the action that registers the confirmation watch every non-failing exit is cut off by decoded invoice amount == GetClaimAmount()*1000 (inline or through a helper whose nil return is cut off by param == 1000*param, called with these two values) or by the legacy branch AllowNewClaimPayment == false, in which case the RebalancePayment call must be dominated by AllowNewClaimPayment == true; the decoded payreq is the paid one; the pay state is entered only from such states. " +
 			"R4: the Premium field of both agreement messages is the result of premium.Setting.Compute(requester, asset, op, amount) with op = SwapIn for the swap-in agreement and SwapOut for the swap-out agreement, asset = LBTC exactly on the lbtc-chain branch; PremiumLimit of locally created requests is (*premium.PPM).Compute of NewPPM(rate parameter) applied to the value stored in Amount of the same message. " +
-			"R5: outside the responder actions the agreement fields of SwapData are stored only under `field == nil` (a peer cannot replace an agreement whose premium was already checked). R6: per exported result-producing method of premium.Setting, whether the result can come from a field of the Setting object that is written after construction (map updates, deletes, clears and stores through the receiver, in all functions of the package reached from it); on the pinned tree there is none (answers from the store only). If there is one, every method of Setting that reaches a bbolt write must write that field on each success path: a store-changing method that never writes it is a violation; keyed invalidation is undecided (keying is not interpreted), a reset on all paths discharges. Guards, effects and replies are followed through in-module helpers (bool predicates, error-returning checks incl. `return check(x)`, reply/delivery helpers; parameters bound to arguments, depth <= 3) and through values selected into locals (phis are judged per incoming edge); a shape that cannot be interpreted yields an undecided obligation (exit 2), a violation is reported only when the whole relevant code was interpreted.",
+			"R5: outside the responder actions the agreement fields of SwapData are stored only under `field == nil` (a peer cannot replace an agreement whose premium was already checked). R6: per exported result-producing method of premium.Setting, whether the result can come from a field of the Setting object that is written after construction (map updates, deletes, clears and stores through the receiver, in all functions of the package reached from it); on the pinned tree there is none (answers from the store only). If there is one, every method of Setting that reaches a bbolt write must write that field on each success path: a store-changing method that never writes it is a violation; a reset or a sweep over the whole map on all success paths discharges; for keyed invalidation the one keying fact that matters is decided: store accesses and cache keys are classified by their string key components (a constant such as 'default', or variable), followed through the package functions down to the function that holds the bbolt operation; if a lookup can fill an entry under key k with a value read from the store under a different key k' (the default-rate fallback remembered under the peer), every method that writes store key k' must reset or sweep the cache - dropping only its own entry is a violation; a method whose store key feeds no foreign entries is discharged when it drops the entry of exactly the key it writes on every success path; anything else about the keying is undecided. Guards, effects and replies are followed through in-module helpers (bool predicates, error-returning checks incl. `return check(x)`, reply/delivery helpers; parameters bound to arguments, depth <= 3) and through values selected into locals (phis are judged per incoming edge); a shape that cannot be interpreted yields an undecided obligation (exit 2), a violation is reported only when the whole relevant code was interpreted.",
 		NotD: "Arithmetic wrap-around of uint64(int64(amount)+premium) for premiums below -amount and of amount*1000; float rounding of the factor 3 and the truncation of msat/1000; whether the lightning node pays exactly the decoded amount; that a swap carries only the agreement of its own kind (a foreign-kind agreement stored by SendEvent before the acceptability test makes CheckPremiumAmount dereference a nil request: a crash, not an overpayment); concurrency between the premium check and later reads.",
 		Run:  runC12,
 	})
@@ -1749,84 +1749,396 @@ func c12R6(c *an.Check) {
 	if len(caches) == 0 {
 		return
 	}
-	// every method that changes the store must write each cache field on its success paths
-	for _, m := range methods {
-		changes := false
-		for _, e := range w.Summary(m).Effects {
+	// ---- keying: which store key a cache entry depends on ---------------------------------
+	isStr := func(t types.Type) bool {
+		b, ok := t.Underlying().(*types.Basic)
+		return ok && b.Info()&types.IsString != 0
+	}
+	boltKind := func(g *ssa.Function) (reads, writes bool) {
+		for _, e := range w.Summary(g).Effects {
 			if c12IsBoltWrite(e) {
-				changes = true
+				writes = true
+			} else if c12IsBolt(e) {
+				reads = true
 			}
 		}
-		if !changes {
-			continue
+		return reads && !writes, writes
+	}
+	primitive := func(g *ssa.Function) bool { // the bbolt operation sits in g itself or in a closure of g
+		for _, e := range w.Summary(g).Effects {
+			if c12IsBolt(e) && e.In != nil && (e.In == g || e.In.Parent() == g) {
+				return true
+			}
 		}
-		for _, name := range sortedKeys(caches) {
+		return false
+	}
+	classOf := func(v ssa.Value, env map[*ssa.Parameter]string) string {
+		v = c12StripConv(v)
+		if cs, ok := an.ConstString(v); ok {
+			return fmt.Sprintf("%q", cs)
+		}
+		if p, ok := v.(*ssa.Parameter); ok {
+			if c, ok := env[p]; ok {
+				return c
+			}
+		}
+		return "var"
+	}
+	// storeClasses: the key classes (string key components: a constant or "var") of the
+	// store accesses of the wanted kind reached through a call
+	var storeClasses func(ci ssa.CallInstruction, env map[*ssa.Parameter]string, wantWrite bool, depth int) (map[string]bool, bool)
+	storeClasses = func(ci ssa.CallInstruction, env map[*ssa.Parameter]string, wantWrite bool, depth int) (map[string]bool, bool) {
+		out := map[string]bool{}
+		g := ci.Common().StaticCallee()
+		if g == nil || g.Blocks == nil || w.FnRel(g) != "premium" {
+			return out, true
+		}
+		r, wr := boltKind(g)
+		if (wantWrite && !wr) || (!wantWrite && !r) {
+			return out, true
+		}
+		if depth > 4 {
+			return out, false
+		}
+		args := ci.Common().Args
+		env2 := map[*ssa.Parameter]string{}
+		var strs []string
+		for i, p := range g.Params {
+			if i < len(args) && isStr(p.Type()) {
+				env2[p] = classOf(args[i], env)
+				if !(i == 0 && g.Signature.Recv() != nil) {
+					strs = append(strs, env2[p])
+				}
+			}
+		}
+		if primitive(g) {
+			out[strings.Join(strs, ",")] = true
+			return out, true
+		}
+		ok := true
+		for _, in := range an.Calls(g) {
+			sub, sok := storeClasses(in, env2, wantWrite, depth+1)
+			ok = ok && sok
+			for k := range sub {
+				out[k] = true
+			}
+		}
+		return out, ok
+	}
+	// keyClass: the string components of a cache key value
+	keyClass := func(kv ssa.Value, env map[*ssa.Parameter]string) (string, bool) {
+		kv = c12StripConv(kv)
+		if isStr(kv.Type()) {
+			return classOf(kv, env), true
+		}
+		if p, ok := kv.(*ssa.Parameter); ok {
+			if c, ok := env[p]; ok {
+				return c, true
+			}
+			return "", false
+		}
+		u, ok := kv.(*ssa.UnOp)
+		if !ok || u.Op != token.MUL {
+			return "", false
+		}
+		al, ok := u.X.(*ssa.Alloc)
+		if !ok || al.Referrers() == nil {
+			return "", false
+		}
+		var strs []string
+		kst, _ := al.Type().(*types.Pointer).Elem().Underlying().(*types.Struct)
+		if kst == nil {
+			return "", false
+		}
+		vals := map[int]ssa.Value{}
+		for _, r := range *al.Referrers() {
+			if fa, ok := r.(*ssa.FieldAddr); ok && fa.Referrers() != nil {
+				for _, rr := range *fa.Referrers() {
+					if st, ok := rr.(*ssa.Store); ok && st.Addr == fa {
+						if _, dup := vals[fa.Field]; dup {
+							return "", false
+						}
+						vals[fa.Field] = st.Val
+					}
+				}
+			}
+		}
+		for i := 0; i < kst.NumFields(); i++ {
+			if !isStr(kst.Field(i).Type()) {
+				continue
+			}
+			v, ok := vals[i]
+			if !ok {
+				strs = append(strs, `""`)
+				continue
+			}
+			strs = append(strs, classOf(v, env))
+		}
+		return strings.Join(strs, ","), true
+	}
+	for _, name := range sortedKeys(caches) {
+		// roles of the package functions with respect to the cache field
+		type filler struct{ ki, vi int }
+		fillers := map[*ssa.Function]filler{}
+		keyedInv := map[*ssa.Function]int{} // parameter index of the deleted key
+		resetter := map[*ssa.Function]bool{}
+		var uninterp []string
+		for _, g := range fns {
+			u := uses[g]
+			hasRange := false
+			for _, in := range u.reads[name] {
+				if _, ok := in.(*ssa.Range); ok {
+					hasRange = true
+				}
+			}
+			if len(u.resets[name]) > 0 {
+				resetter[g] = true
+			}
+			for _, in := range u.writes[name] {
+				switch y := in.(type) {
+				case *ssa.MapUpdate:
+					ki, vi := c12ParamIndex(y.Key), c12ParamIndex(y.Value)
+					if ki >= 0 && vi >= 0 {
+						fillers[g] = filler{ki, vi}
+					}
+				case ssa.CallInstruction: // delete
+					if hasRange {
+						resetter[g] = true // a sweep over the whole map
+					} else if a := y.Common().Args; len(a) == 2 {
+						if ki := c12ParamIndex(a[1]); ki >= 0 {
+							keyedInv[g] = ki
+						}
+					}
+				}
+			}
+		}
+		// fill sites reachable from the result-producing methods: key class vs. the classes of the store reads the value comes from
+		foreign := map[string]string{} // store key class -> where an entry under another key is filled from it
+		fillSeen := 0
+		var resFns []*ssa.Function
+		seenF := map[*ssa.Function]bool{}
+		for _, m := range methods {
+			if !m.Object().Exported() {
+				continue
+			}
+			for _, g := range closure(m) {
+				if !seenF[g] {
+					seenF[g] = true
+					resFns = append(resFns, g)
+				}
+			}
+		}
+		for _, F := range resFns {
+			type site struct {
+				at       ssa.Instruction
+				key, val ssa.Value
+			}
+			var sites []site
+			for _, in := range uses[F].writes[name] {
+				if mu, ok := in.(*ssa.MapUpdate); ok {
+					if _, isFiller := fillers[F]; !isFiller {
+						sites = append(sites, site{mu, mu.Key, mu.Value})
+					}
+				}
+			}
+			for _, ci := range an.Calls(F) {
+				if g := ci.Common().StaticCallee(); g != nil {
+					if fl, ok := fillers[g]; ok && fl.ki < len(ci.Common().Args) && fl.vi < len(ci.Common().Args) {
+						sites = append(sites, site{ci, ci.Common().Args[fl.ki], ci.Common().Args[fl.vi]})
+					}
+				}
+			}
+			for _, st := range sites {
+				fillSeen++
+				ck, ok := keyClass(st.key, nil)
+				if !ok {
+					uninterp = append(uninterp, "the cache key used at "+w.Pos(st.at.Pos())+" is not a string or a struct literal of parameters and constants")
+					continue
+				}
+				for _, src := range c12CallsBehind(st.val) {
+					if src == nil {
+						continue
+					}
+					cls, cok := storeClasses(src, nil, false, 0)
+					if !cok {
+						uninterp = append(uninterp, "the store reads behind the value cached at "+w.Pos(st.at.Pos())+" are nested too deeply")
+					}
+					for sc := range cls {
+						if strings.Count(sc, ",") != strings.Count(ck, ",") {
+							uninterp = append(uninterp, fmt.Sprintf("cache key (%s) and store key (%s) at %s have different shapes", ck, sc, w.Pos(st.at.Pos())))
+							continue
+						}
+						if sc != ck {
+							foreign[sc] = fmt.Sprintf("%s caches under key (%s) a value read from the store under key (%s) (%s)", w.FuncName(F), ck, sc, w.Pos(st.at.Pos()))
+						}
+					}
+				}
+			}
+		}
+		if fillSeen == 0 {
+			uninterp = append(uninterp, "no place where Setting."+name+" is filled by a rate lookup was recognised")
+		}
+		// every method that changes the store must invalidate what depends on the key it writes
+		for _, m := range methods {
+			_, changes := boltKind(m)
+			if !changes {
+				continue
+			}
 			cons := w.FuncName(m) + " cache Setting." + name
 			pos := w.Pos(m.Pos())
-			// points of m after which the field has been written: direct writes, calls of functions that write it
-			stop := map[*ssa.BasicBlock]bool{}
-			reset := false
+			stopAny, stopReset := map[*ssa.BasicBlock]bool{}, map[*ssa.BasicBlock]bool{}
 			touches := false
-			mark := func(in ssa.Instruction) { stop[in.Block()] = true; touches = true }
-			for _, in := range uses[m].writes[name] {
-				mark(in)
-			}
+			var keyedClasses []string
+			keyedOK := true
 			for _, in := range uses[m].resets[name] {
-				mark(in)
-				reset = true
+				stopAny[in.Block()], stopReset[in.Block()] = true, true
+				touches = true
 			}
+			if resetter[m] {
+				for _, in := range uses[m].writes[name] {
+					stopAny[in.Block()], stopReset[in.Block()] = true, true
+					touches = true
+				}
+			} else {
+				for _, in := range uses[m].writes[name] {
+					touches = true
+					stopAny[in.Block()] = true
+					if ci, ok := in.(ssa.CallInstruction); ok && len(ci.Common().Args) == 2 {
+						if kc, ok := keyClass(ci.Common().Args[1], nil); ok {
+							keyedClasses = append(keyedClasses, kc)
+							continue
+						}
+					}
+					keyedOK = false
+				}
+			}
+			wcls := map[string]bool{}
+			wok := true
 			for _, ci := range an.Calls(m) {
 				if _, isGo := ci.(*ssa.Go); isGo {
 					continue
+				}
+				cl, cok := storeClasses(ci, nil, true, 0)
+				wok = wok && cok
+				for k := range cl {
+					wcls[k] = true
 				}
 				g := ci.Common().StaticCallee()
 				if g == nil || uses[g] == nil {
 					continue
 				}
+				isReset := false
+				writesIt := false
 				for _, h := range closure(g) {
-					if len(uses[h].writes[name])+len(uses[h].resets[name]) > 0 {
-						mark(ci)
+					if resetter[h] {
+						isReset = true
 					}
+					if len(uses[h].writes[name])+len(uses[h].resets[name]) > 0 {
+						writesIt = true
+					}
+				}
+				if !writesIt {
+					continue
+				}
+				touches = true
+				stopAny[ci.Block()] = true
+				switch ki, isKeyed := keyedInv[g]; {
+				case isReset:
+					stopReset[ci.Block()] = true
+				case isKeyed && ki < len(ci.Common().Args):
+					if kc, ok := keyClass(ci.Common().Args[ki], nil); ok {
+						keyedClasses = append(keyedClasses, kc)
+					} else {
+						keyedOK = false
+					}
+				default:
+					keyedOK = false
 				}
 			}
 			if !touches {
 				c.Bad("C12.R6", cons, pos, fmt.Sprintf("%s changes the rate store but never writes Setting.%s, from which %s can answer (written by %s): after this call a rate that is no longer the configured one keeps being returned and charged until restart", w.FuncName(m), name, "the rate lookups", strings.Join(sortedKeys(c12Set(written[name])), ", ")))
 				continue
 			}
-			reach := an.ReachBlocks([]*ssa.BasicBlock{m.Blocks[0]}, nil, stop)
-			uncovered := ""
-			ei := errIdx(m)
-			if ei < 0 {
-				for _, r := range an.Returns(m) {
-					if r.Block() != m.Recover && reach[r.Block()] && !stop[r.Block()] {
-						uncovered += " " + w.Pos(r.Pos())
+			uncovered := func(stop map[*ssa.BasicBlock]bool) string {
+				reach := an.ReachBlocks([]*ssa.BasicBlock{m.Blocks[0]}, nil, stop)
+				out := ""
+				ei := errIdx(m)
+				if ei < 0 {
+					for _, r := range an.Returns(m) {
+						if r.Block() != m.Recover && reach[r.Block()] && !stop[r.Block()] {
+							out += " " + w.Pos(r.Pos())
+						}
 					}
+					return out
 				}
-			} else {
 				x := c12XOf(w)
 				for _, cs := range c12Cases(m, ei, false) {
 					if cs.lost {
-						uncovered += " ?" + w.Pos(cs.ret.Pos())
+						out += " ?" + w.Pos(cs.ret.Pos())
 						continue
 					}
 					if !an.IsNilConst(cs.v) && x.nonNil(cs) {
 						continue
 					}
 					if !stop[cs.b] && reach[cs.b] {
-						uncovered += " " + w.Pos(cs.ret.Pos())
+						out += " " + w.Pos(cs.ret.Pos())
 					}
 				}
+				return out
 			}
+			if u := uncovered(stopAny); u != "" {
+				c.Unknown("C12.R6", cons, pos, "Setting."+name+" is written by this store-changing method, but not on every success path (returns at"+u+"); this rule cannot decide whether the skipped cases need it")
+				continue
+			}
+			if uncovered(stopReset) == "" {
+				c.OK("C12.R6", cons, pos, "every success path resets or sweeps Setting."+name)
+				continue
+			}
+			// keyed invalidation only
+			var hit []string
+			for k := range wcls {
+				if why, ok := foreign[k]; ok {
+					hit = append(hit, why)
+				}
+			}
+			sort.Strings(hit)
 			switch {
-			case uncovered != "":
-				c.Unknown("C12.R6", cons, pos, "Setting."+name+" is written by this store-changing method, but not on every success path (returns at"+uncovered+"); this rule cannot decide whether the skipped cases need it")
-			case reset:
-				c.OK("C12.R6", cons, pos, "every success path resets Setting."+name)
+			case len(hit) > 0:
+				c.Bad("C12.R6", cons, pos, fmt.Sprintf("%s writes the store key (%s) and drops only single entries of Setting.%s, but entries under OTHER keys also depend on that store key: %s. Those entries are not invalidated when it changes, so the old rate keeps being returned and charged until restart; the method must reset the cache (or delete every entry that may hold such a value)", w.FuncName(m), strings.Join(sortedKeys(wcls), " | "), name, strings.Join(hit, "; ")))
+			case !wok || len(wcls) == 0:
+				c.Unknown("C12.R6", cons, pos, "cannot determine the store key this method writes")
+			case !keyedOK || len(keyedClasses) == 0:
+				c.Unknown("C12.R6", cons, pos, "every success path writes Setting."+name+", but the entry that is dropped cannot be interpreted")
+			case len(uninterp) > 0:
+				c.Unknown("C12.R6", cons, pos, "every success path drops an entry of Setting."+name+", but the keying of the cache is not fully interpreted: "+strings.Join(sortedKeys(c12Set(uninterp)), "; "))
 			default:
-				c.Unknown("C12.R6", cons, pos, "every success path writes Setting."+name+", but this rule does not interpret the keying: it cannot decide that exactly the entries that depend on the changed rate are dropped")
+				own := true
+				for _, kc := range keyedClasses {
+					if !wcls[kc] {
+						own = false
+					}
+				}
+				if own {
+					c.OK("C12.R6", cons, pos, fmt.Sprintf("drops the entry of the store key it writes (%s) on every success path, and no entry under another key is filled from that store key", strings.Join(sortedKeys(wcls), " | ")))
+				} else {
+					c.Unknown("C12.R6", cons, pos, fmt.Sprintf("drops entries (%s) that are not the store key it writes (%s)", strings.Join(keyedClasses, " | "), strings.Join(sortedKeys(wcls), " | ")))
+				}
 			}
 		}
 	}
+}
+
+func c12ParamIndex(v ssa.Value) int {
+	p, ok := c12StripConv(v).(*ssa.Parameter)
+	if !ok {
+		return -1
+	}
+	for i, q := range p.Parent().Params {
+		if q == p {
+			return i
+		}
+	}
+	return -1
 }
 
 func c12Set(xs []string) map[string]bool {
